@@ -70,6 +70,15 @@ CHECKS = {
                  "delimiter strings), not proved."),
         "design_ref": "DESIGN.md section 7 C07",
     },
+    "C08": {
+        "text": ("Proved on the caching protocol (Model/Cache.v): a cache of any capacity (None, 0, n) with any valid contents returns f(k) and "
+                 "keeps its invariant; every sequence of calls, cache_clear() and cache_configure() yields the outputs of the cache-free "
+                 "function (instances: encode_url, split_netloc, the per-object memo over the 36 accessors). The URL model itself is purely "
+                 "functional, so value/argument immutability holds there by construction. PARTIAL: that CPython's lru_cache/dict/propcache "
+                 "implement the protocol and that no code writes a memo entry other than derive(key, stored strings) is checked by cold/warm "
+                 "twin history runs (all results re-observed at the end, comparisons before/after hashing one operand), not proved."),
+        "design_ref": "DESIGN.md section 7 C08",
+    },
     "C09": {
         "text": ("Proved: pickling keeps exactly the five stored strings; the restored object is == with the same key; all 36 observed "
                  "accessors agree whenever the eagerly stored authority parts are what a lazy split derives; encode_url stores its "
@@ -140,6 +149,14 @@ CHECKS = {
                  "with_port rejects bools and out-of-range values. Exhaustive scheme x port x host x route matrix on the implementation."),
         "design_ref": "DESIGN.md section 7 C17",
     },
+    "C18": {
+        "text": ("Proved: human_quote shows printable text without '%' and without the delimiters of its position unchanged (non-ASCII "
+                 "included), and for every text leaves none of those delimiters raw (the three unsafe sets are subsets of a delimiter set "
+                 "that never occurs inside an escape; 11 x 256 sweep). PARTIAL: the URL-level round trip URL(u.human_repr()) == u and the "
+                 "readability of every shown escape are the extracted predicate c18_pred checked on builds from 70 decoded texts x "
+                 "IDN/IPv4/IPv6 hosts (both backends), not proved. Known finding F13."),
+        "design_ref": "DESIGN.md section 7 C18",
+    },
     "C19": {
         "text": ("Proved on the model: every constructor, modifier, accessor and operation sequence returns or fails with ValueError/TypeError "
                  "(all inputs, all oracle answers); the Writer under an arbitrary allocator returns all-or-MemoryError and stays in bounds. "
@@ -148,6 +165,16 @@ CHECKS = {
                  "(_testcapi.set_nomemory), not proved."),
         "design_ref": "DESIGN.md section 7 C19",
     },
+}
+
+CHECKS["C20"] = {
+    "text": ("Proved on the interleaving semantics of Model/Cache.v: for every schedule of the threads' atomic actions (lookup, insert after a "
+             "miss) and every interleaved cache_clear()/cache_configure(), the cache invariant is preserved and every finished thread has "
+             "produced exactly the sequential results (instance: threads sharing the encode_url cache). PARTIAL: the atomicity granularity "
+             "(GIL; dict, lru_cache, one C-extension call; quoters keep no state between calls) is assumed; it is exercised by thread stress "
+             "runs (8-32 threads, 1 microsecond switch interval, disturber thread, both backends) whose per-thread results must equal the "
+             "extracted model's sequential results, and by a scan of the generated C for GIL release."),
+    "design_ref": "DESIGN.md section 7 C20",
 }
 
 NOT_YET = {}
